@@ -57,7 +57,7 @@ func (sim) Explain(prop string, st map[string]int64) string {
 	case "C20":
 		probes = []string{"probe.rejection-with-other-unmined", "probe.chained-unconfirmed-send", "probe.already-in-mempool", "probe.already-confirmed",
 			"probe.rejection-of-recorded-tx", "probe.resend-with-unmined", "probe.resend-chain", "fault.backend-answer.transport", "fault.backend-answer.reject-fee",
-			"fault.backend-answer.reject-generic", "fault.backend-answer.reject-conflict", "fault.backend-answer.notify-received-fails", "probe.resend-rejected"}
+			"fault.backend-answer.reject-generic", "fault.backend-answer.reject-conflict", "fault.backend-answer.notify-received-fails", "fault.backend-answer.notify-received-2nd-fails", "probe.resend-rejected", "probe.rejection-with-recorded-child"}
 	case "C15":
 		probes = []string{"probe.reorg-depth>1", "probe.reorg-with-wallet-tx", "probe.restart-tip-not-on-chain", "probe.stale-disconnect", "probe.reorg-equal-height", "probe.sync-after-backend-failure", "probe.node-moved-while-stopped"}
 	}
@@ -568,6 +568,12 @@ func (rs *runState) exec(task, step int, op core.Op) {
 			x.harvestFaults()
 			if sn, err := x.snap(); err == nil {
 				x.unminedAtStart = sn.unmined
+				x.unminedChildAtStart = map[chainhash.Hash]bool{}
+				for h := range sn.unmined {
+					if len(x.unminedDescendants(h)) > 0 {
+						x.unminedChildAtStart[h] = true
+					}
+				}
 			}
 			x.stop()
 			env.Count("op.stop")
@@ -633,7 +639,7 @@ func (rs *runState) exec(task, step int, op core.Op) {
 		if !x.running {
 			x.pendingResend = nil
 			for _, a := range op.A {
-				x.pendingResend = append(x.pendingResend, answerClasses[int(uint64(a)%uint64(len(answerClasses)-1))])
+				x.pendingResend = append(x.pendingResend, answerClasses[int(uint64(a)%7)])
 			}
 		}
 	case "join":
